@@ -276,7 +276,10 @@ theorem release_detach {m : Mem} {G : Ghost} {hold pend : Nat → Nat} {Z : List
   · intro x hlx hzx
     rw [hlive] at hlx
     have := h.ref x hlx hzx
-    rw [hg]; split <;> simp_all
+    rw [hg]
+    by_cases hx : x = c
+    · subst hx; simpa using this
+    · simp only [hx, if_false]; exact this
   · intro x hlx hzx hp hpe
     rw [hlive] at hlx
     rw [hg]
@@ -285,5 +288,257 @@ theorem release_detach {m : Mem} {G : Ghost} {hold pend : Nat → Nat} {Z : List
     · exact h.root x hlx hzx hp hpe
   · intro x hx; rw [hlive]; exact h.held x hx
   · exact h.pendRoot
+
+
+theorem pset_nil (pend : Nat → Nat) (v : Nat) : pset pend [] v = pend := by
+  funext x; simp [pset]
+
+def RelP (f : Nat) : Prop :=
+  ∀ (m : Mem) (G : Ghost) (hold pend : Nat → Nat) (Z : List Nat) (s : Nat),
+    InvP m G hold pend Z → (m.get s).live = true → s ∉ Z → ¬ HasPar G s → pend s = 1 →
+    ((m.get s).next = none ∧ (m.get s).parent = none) →
+    (brank G m.size s + 1) * (m.size + 2) ≤ f →
+    ∃ m' G' b, release f m s = .ok (m', b) ∧ InvP m' G' hold (pset pend [s] 0) Z ∧ RelPost m m' G G' s ∧
+      (b = true ↔ hold s = 0)
+
+def RelQ (f : Nat) : Prop :=
+  ∀ (m : Mem) (G : Ghost) (hold pend : Nat → Nat) (Z : List Nat) (cs : List Nat) (ptr : Option Nat) (r : Nat),
+    InvP m G hold pend Z → Chain m ptr cs → cs.Nodup →
+    (∀ c ∈ cs, c ∉ Z ∧ ¬ HasPar G c ∧ pend c = 1 ∧ brank G m.size c < r) →
+    r * (m.size + 2) + cs.length + 1 ≤ f →
+    ∃ m' G', releaseKids f m ptr = .ok m' ∧ InvP m' G' hold (pset pend cs 0) Z ∧
+      m'.size = m.size ∧ G'.rank = G.rank ∧
+      (∀ x, (∀ c ∈ cs, ¬ Desc G c x) → m'.get x = m.get x ∧ G'.kids x = G.kids x) ∧
+      (∀ p y, y ∈ G'.kids p → y ∈ G.kids p)
+
+theorem relP_step {f : Nat} (ihQ : RelQ f) : RelP (f + 1) := by
+  intro m G hold pend Z s h hl hz hnp hps hlinks hf
+  have hr := h.ref s hl hz
+  rw [hpN_not hnp, hps] at hr
+  have hs := Mem.live_lt hl
+  by_cases hgt : (m.get s).ref > 1
+  · refine ⟨m.put s { m.get s with ref := (m.get s).ref - 1 }, G, false, ?_,
+      release_keep h hl hz hnp hps hlinks (by omega), ?_, ?_⟩
+    · simp [release, Mem.deref_of_live hl, bind, Except.bind, hgt, pure, Except.pure]
+    · refine ⟨by simp, rfl, ?_, fun _ _ => rfl, fun _ _ hy => hy⟩
+      intro x hx
+      have : x ≠ s := fun e => hx (e ▸ Desc.refl)
+      exact Mem.get_put_ne _ this
+    · simp; omega
+  · have hh0 : hold s = 0 := by omega
+    have hz1 := release_zombify h hl hz hnp hps hh0
+    have hchain := h.chain s hl hz
+    have hkid_ne : ∀ x, x ∈ G.kids s → x ≠ s := fun x hx e => hnp ⟨s, e ▸ hx⟩
+    have hG1sub : ∀ q y, y ∈ (if q = s then [] else G.kids q) → y ∈ G.kids q := by
+      intro q y hy; by_cases hq : q = s <;> simp_all
+    -- the loop over the children
+    obtain ⟨m2, G2, he2, hi2, hsz2, hrk2, hfr2, hsub2⟩ :=
+      ihQ m ⟨fun q => if q = s then [] else G.kids q, G.rank⟩ hold
+        (fun x => if x = s then 0 else if x ∈ G.kids s then 1 else pend x) (s :: Z) (G.kids s)
+        (m.get s).children (brank G m.size s) hz1 hchain (h.nodup s)
+        (by
+          intro c hc
+          have hk := h.kid s c hc
+          have hcs := hkid_ne c hc
+          refine ⟨?_, ?_, ?_, ?_⟩
+          · simp [hcs, hk.2.1]
+          · rintro ⟨q, hq⟩
+            have hq' := hG1sub q c hq
+            have : q = s := h.uniq q s c hq' hc
+            subst this
+            simp at hq
+          · simp [hcs, hc]
+          · exact brank_lt (Mem.live_lt hk.1) (h.rank s c hc))
+        (by
+          have hlen := h.kids_length_le s
+          have : (brank G m.size s + 1) * (m.size + 2) = brank G m.size s * (m.size + 2) + (m.size + 2) := by
+            rw [Nat.add_mul]; simp
+          omega)
+    -- `s` itself was not touched
+    have hsnd : ∀ c ∈ G.kids s, ¬ Desc ⟨fun q => if q = s then [] else G.kids q, G.rank⟩ c s := by
+      intro c hc hd
+      have hne : s ≠ c := fun e => hkid_ne c hc e.symm
+      obtain ⟨q, hq⟩ := hd.hasPar_of_ne hne
+      exact hnp ⟨q, hG1sub q s hq⟩
+    have hs2 := hfr2 s hsnd
+    have hl2 : (m2.get s).live = true := by rw [hs2.1]; exact hl
+    have hk2s : G2.kids s = [] := by rw [hs2.2]; simp
+    have hpend2 : (pset (fun x => if x = s then 0 else if x ∈ G.kids s then 1 else pend x) (G.kids s) 0) =
+        pset pend [s] 0 := by
+      funext x
+      simp only [pset, List.mem_singleton]
+      by_cases hxk : x ∈ G.kids s
+      · have hp0 : pend x = 0 := by
+          apply Classical.byContradiction
+          intro hne
+          exact h.pendRoot x (by omega) ⟨s, hxk⟩
+        have := hkid_ne x hxk
+        simp [hxk, this, hp0]
+      · by_cases hxs : x = s <;> simp [hxk, hxs]
+    rw [hpend2] at hi2
+    have hi3 := release_bury hi2 hl2 (by simp [hh0, pset])
+    refine ⟨freeNode m2 s (m2.get s), G2, true, ?_, hi3, ?_, by simp [hh0]⟩
+    · simp [release, Mem.deref_of_live hl, bind, Except.bind, hgt, he2, Mem.deref_of_live hl2, pure, Except.pure]
+    · have hdesc : ∀ x, ¬ Desc G s x → x ≠ s ∧
+          ∀ c ∈ G.kids s, ¬ Desc ⟨fun q => if q = s then [] else G.kids q, G.rank⟩ c x := by
+        intro x hx
+        refine ⟨fun e => hx (e ▸ Desc.refl), ?_⟩
+        intro c hc hd
+        exact hx (Desc.cons hc (Desc.mono hG1sub hd))
+      refine ⟨?_, hrk2, ?_, ?_, ?_⟩
+      · rw [freeNode_size, hsz2]
+      · intro x hx
+        obtain ⟨hxs, hxd⟩ := hdesc x hx
+        rw [freeNode_get]; simp only [hxs, false_and, if_false]
+        exact (hfr2 x hxd).1
+      · intro x hx
+        obtain ⟨hxs, hxd⟩ := hdesc x hx
+        rw [(hfr2 x hxd).2]; simp [hxs]
+      · intro p y hy
+        exact hG1sub p y (hsub2 p y hy)
+
+
+theorem relQ_nil (f : Nat) {m : Mem} {G : Ghost} {hold pend : Nat → Nat} {Z : List Nat} {ptr : Option Nat}
+    (h : InvP m G hold pend Z) (hc : Chain m ptr []) :
+    ∃ m' G', releaseKids f m ptr = .ok m' ∧ InvP m' G' hold (pset pend [] 0) Z ∧
+      m'.size = m.size ∧ G'.rank = G.rank ∧
+      (∀ x, (∀ c ∈ ([] : List Nat), ¬ Desc G c x) → m'.get x = m.get x ∧ G'.kids x = G.kids x) ∧
+      (∀ p y, y ∈ G'.kids p → y ∈ G.kids p) := by
+  have : ptr = none := hc
+  subst this
+  refine ⟨m, G, ?_, by rw [pset_nil]; exact h, rfl, rfl, fun _ _ => ⟨rfl, rfl⟩, fun _ _ hy => hy⟩
+  cases f <;> simp [releaseKids, pure, Except.pure]
+
+theorem relQ_step {f : Nat} (ihP : RelP f) (ihQ : RelQ f) : RelQ (f + 1) := by
+  intro m G hold pend Z cs ptr r h hch hnd hcs hf
+  cases cs with
+  | nil => exact relQ_nil _ h hch
+  | cons c cs' =>
+    obtain ⟨hptr, hlc, hch'⟩ := hch
+    subst hptr
+    have hcc := hcs c (by simp)
+    have hcs_lt := Mem.live_lt hlc
+    have hnd' := List.nodup_cons.mp hnd
+    -- tchild->next = NULL; tchild->prev = NULL; tchild->parent = NULL
+    have h1 := release_detach h hlc hcc.2.1 (by omega : 0 < pend c)
+    have hg1 : ∀ x, (m.put c { m.get c with next := none, prev := none, parent := none }).get x =
+        if x = c then { m.get c with next := none, prev := none, parent := none } else m.get x := by
+      intro x; rw [Mem.get_put]; by_cases hx : x = c <;> simp [hx, hcs_lt]
+    have hl1 : ((m.put c { m.get c with next := none, prev := none, parent := none }).get c).live = true := by
+      rw [hg1]; simpa using hlc
+    have hlen : 1 ≤ (c :: cs').length := by simp
+    have hB : (brank G m.size c + 1) * (m.size + 2) ≤ brank G m.size c * (m.size + 2) + (m.size + 2) := by
+      rw [Nat.add_mul]; simp
+    have hmul : (brank G m.size c + 1) * (m.size + 2) ≤ r * (m.size + 2) :=
+      Nat.mul_le_mul_right _ (by have := hcc.2.2.2; omega)
+    -- xmpp_stanza_release(tchild)
+    obtain ⟨m2, G2, b, he2, hi2, hpost, _⟩ :=
+      ihP (m.put c { m.get c with next := none, prev := none, parent := none }) G hold pend Z c h1 hl1 hcc.1 hcc.2.1
+        hcc.2.2.1 (by rw [hg1]; simp)
+        (by simp only [Mem.size_put]; simp only [List.length_cons] at hf; omega)
+    -- the remaining siblings were not touched
+    have hrest : ∀ a ∈ cs', ¬ Desc G c a := by
+      intro a ha hd
+      have hne : a ≠ c := fun e => hnd'.1 (e ▸ ha)
+      exact (hcs a (by simp [ha])).2.1 (hd.hasPar_of_ne hne)
+    have hget2 : ∀ a ∈ cs', m2.get a = m.get a := by
+      intro a ha
+      rw [hpost.frame a (hrest a ha), hg1]
+      have hne : a ≠ c := fun e => hnd'.1 (e ▸ ha)
+      simp [hne]
+    have hch2 : Chain m2 (m.get c).next cs' := by
+      apply Chain.congr hch'
+      intro a ha
+      rw [hget2 a ha]; exact ⟨rfl, rfl⟩
+    have hsz2 : m2.size = m.size := by rw [hpost.size]; simp
+    obtain ⟨m3, G3, he3, hi3, hsz3, hrk3, hfr3, hsub3⟩ :=
+      ihQ m2 G2 hold (pset pend [c] 0) Z cs' (m.get c).next r hi2 hch2 hnd'.2
+        (by
+          intro a ha
+          have hca := hcs a (by simp [ha])
+          have hne : a ≠ c := fun e => hnd'.1 (e ▸ ha)
+          refine ⟨hca.1, ?_, ?_, ?_⟩
+          · rintro ⟨q, hq⟩; exact hca.2.1 ⟨q, hpost.sub q a hq⟩
+          · simp [pset, hne, hca.2.2.1]
+          · rw [hsz2, brank_congr hpost.rank]; exact hca.2.2.2)
+        (by rw [hsz2]; simp only [List.length_cons] at hf; omega)
+    refine ⟨m3, G3, ?_, ?_, by rw [hsz3, hsz2], by rw [hrk3, hpost.rank], ?_, ?_⟩
+    · simp [releaseKids, Mem.deref_of_live hlc, bind, Except.bind, he2, he3]
+    · have : pset (pset pend [c] 0) cs' 0 = pset pend (c :: cs') 0 := by
+        funext x
+        simp only [pset, List.mem_singleton, List.mem_cons]
+        by_cases hx : x = c <;> by_cases hx' : x ∈ cs' <;> simp [hx, hx']
+      rw [this] at hi3
+      exact hi3
+    · intro x hx
+      have hxc : ¬ Desc G c x := hx c (by simp)
+      have hxne : x ≠ c := fun e => hxc (e ▸ Desc.refl)
+      have h3 := hfr3 x (by
+        intro a ha hd
+        exact hx a (by simp [ha]) (Desc.mono hpost.sub hd))
+      constructor
+      · rw [h3.1, hpost.frame x hxc, hg1]; simp [hxne]
+      · rw [h3.2, hpost.gframe x hxc]
+    · intro p y hy
+      exact hpost.sub p y (hsub3 p y hy)
+
+theorem release_spec : ∀ f : Nat, RelP f ∧ RelQ f := by
+  intro f
+  induction f with
+  | zero =>
+    constructor
+    · intro m G hold pend Z s _ _ _ _ _ _ hf
+      have : 0 < (brank G m.size s + 1) * (m.size + 2) := Nat.mul_pos (by omega) (by omega)
+      omega
+    · intro m G hold pend Z cs ptr r _ _ _ _ hf
+      omega
+  | succ f ih => exact ⟨relP_step ih.2, relQ_step ih.1 ih.2⟩
+
+/-- `xmpp_stanza_release` of a reference the caller holds to a stanza that is a ROOT -/
+theorem release_root {m : Mem} {G : Ghost} {hold : Nat → Nat} {s : Nat} (h : Inv m G hold) (hh : 0 < hold s)
+    (hnp : ¬ HasPar G s) :
+    ∃ m' G' b, release m.fuel m s = .ok (m', b) ∧ Inv m' G' (unbump hold s) ∧ m'.size = m.size ∧
+      (b = true ↔ hold s = 1) := by
+  have hl : (m.get s).live = true := (h.held s (by simpa using hh)).1
+  have hroot := h.root s hl (by simp) hnp rfl
+  -- the reference being released moves from `hold` to `pend`
+  have h0 : InvP m G (unbump hold s) (pset (fun _ => 0) [s] 1) [] := by
+    constructor
+    · exact h.chain
+    · exact h.nokids
+    · exact h.kid
+    · exact h.nodup
+    · exact h.uniq
+    · exact h.rank
+    · intro x hlx hzx
+      have := h.ref x hlx hzx
+      simp only [unbump, pset, List.mem_singleton]
+      by_cases hx : x = s
+      · subst hx; simp; omega
+      · simp [hx]; simpa using this
+    · intro x hlx hzx hp hpe
+      exact h.root x hlx hzx hp rfl
+    · intro x hx
+      by_cases hxs : x = s
+      · subst hxs; exact ⟨hl, by simp⟩
+      · simp only [unbump, pset, List.mem_singleton, hxs, if_false] at hx
+        exact h.held x (by simpa using hx)
+    · intro x hx
+      by_cases hxs : x = s
+      · subst hxs; exact hnp
+      · simp [pset, hxs] at hx
+  obtain ⟨m', G', b, he, hi, hpost, hb⟩ :=
+    (release_spec m.fuel).1 m G (unbump hold s) (pset (fun _ => 0) [s] 1) [] s h0 hl (by simp) hnp
+      (by simp [pset]) hroot
+      (by
+        have := brank_le G m.size s
+        unfold Mem.fuel
+        exact Nat.mul_le_mul_right _ (by omega))
+  refine ⟨m', G', b, he, ?_, hpost.size, ?_⟩
+  · have : pset (pset (fun _ => 0) [s] 1) [s] 0 = fun _ => 0 := by
+      funext x; simp only [pset, List.mem_singleton]; split <;> rfl
+    rw [this] at hi
+    exact hi
+  · rw [hb]; simp [unbump]; omega
 
 end Strophe.Store
